@@ -7,7 +7,7 @@ Public entry points for other property modules:
     statics_obligations(chk)     -> adds the C20 no-shared-state obligations to a vlib.Check
 
 Both (re)run the translator on the current working tree of vlib.REPO, rebuild the dependent .vo files
-of /verif/coq-api and audit the theorems of Props/Static.v.
+of /verif/coq-api and audit the theorems of Props/C03Static.v / Props/C20Static.v.
 
 Everything here rebuilds from vlib.REPO's *current* working tree on every call; generated files are
 rewritten only when their content changes.
@@ -128,15 +128,16 @@ def host_build():
     return res
 
 
-def harness_bin(name):
+def harness_bin(name, release=False):
     """Build one binary of /verif/harness-api against vlib.REPO. Returns (ok, detail, exe)."""
-    key = ("bin", name, vlib.repo_hash())
+    key = ("bin", name, release, vlib.repo_hash())
     if key in _memo:
         return _memo[key]
     ok, text, _ = host_build()
     if not ok:
         return False, text, None
-    ok, text, arts = _cargo_json_build(HARNESS_DIR, os.path.join(API_BUILD, "host"), extra=["--bin", name])
+    ok, text, arts = _cargo_json_build(HARNESS_DIR, os.path.join(API_BUILD, "host"),
+                                       extra=["--bin", name] + (["--release"] if release else []))
     exe = (arts.get(name + "#exe") or [None])[0]
     res = (ok and exe is not None, text[-6000:], exe)
     _memo[key] = res
@@ -234,6 +235,15 @@ def audit_props(chk, props_file, theorems, broken_hint=None):
     return res
 
 
+def thorough_coqchk(chk, modules):
+    """Thorough tier: re-check the compiled development with coqchk."""
+    with locked():
+        ok, out = vlib.coqchk(COQ_DIR, COQ_LOGICAL, modules, timeout=1500)
+    good = ok and "Axioms: <none>" in out.replace("\n  ", " ").replace("* Axioms:\n", "* Axioms: ") or (ok and re.search(r"\* Axioms:\s*<none>", out) is not None)
+    chk.obligation("coqchk -o -silent %s" % " ".join(modules), good, out[-1500:])
+    return good
+
+
 def forbidden_scan(chk):
     hits = vlib.coq_forbidden_scan(COQ_DIR)
     chk.obligation("coq-api: no Admitted/Axiom/Parameter/disabled checks", not hits, "\n".join(hits[:20]))
@@ -266,7 +276,7 @@ def list_probes(sub):
     return out
 
 
-def compile_probe(path, host, outdir, src_text=None):
+def compile_probe(path, host, outdir, src_text=None, opt=False):
     """Compile one single-file probe against the host rlib. Returns dict(accepted, codes, errors, exe)."""
     os.makedirs(outdir, exist_ok=True)
     name = os.path.splitext(os.path.basename(path))[0]
@@ -276,7 +286,8 @@ def compile_probe(path, host, outdir, src_text=None):
         with open(path, "w") as f:
             f.write(src_text)
     cmd = ["rustc", "--edition", "2024", "--crate-type", "bin", "--crate-name", re.sub(r"[^A-Za-z0-9_]", "_", name),
-           "-C", "debuginfo=0", "-C", "debug-assertions=on", "-A", "warnings", "--error-format=json",
+           "-C", "debuginfo=0", "-C", "debug-assertions=on", "-C", "opt-level=%d" % (2 if opt else 0),
+           "-A", "warnings", "--error-format=json",
            "--extern", "gc_arena=" + host["rlib"], "-L", "dependency=" + host["deps"], path, "-o", exe]
     rc, out = vlib.run(cmd, timeout=180)
     codes, errors = [], []
@@ -303,14 +314,14 @@ def run_exe(exe, timeout=60, args=()):
     return rc, out
 
 
-def run_probes(sub, host, only=None):
+def run_probes(sub, host, only=None, opt=False):
     """Compile (and, where `run:` is set and the probe is accepted, execute) all probes of a
     sub-directory in parallel. Returns {id: result} with result = meta + verdict fields."""
     probes = [p for p in list_probes(sub) if (only is None or p["id"] in only)]
     outdir = os.path.join(API_BUILD, "probes", "%s-%d" % (sub, os.getpid()))
 
     def one(p):
-        r = compile_probe(p["path"], host, outdir)
+        r = compile_probe(p["path"], host, outdir, opt=opt)
         r.update({k: p[k] for k in ("id", "expect", "twin", "run", "item", "rule", "known", "path")})
         r["expected_codes"] = p["codes"]
         if r["accepted"] and p.get("run"):
@@ -501,13 +512,13 @@ def _callgraph_obligations(chk):
     ok, _ = prepare(chk, "C03 call graph")
     if not ok:
         return False
-    res = build_and_audit(chk, "Props/Static.v", ["C03_callgraph"])
+    res = build_and_audit(chk, "Props/C03Static.v", ["C03_callgraph"])
     good = all(res.values())
     chk.trusted.append("translator-api: name-based over-approximate call graph (rule re-checked in Coq by edge_rule_ok); "
                        "implicit destructor calls approximated; rustc's &mut exclusivity")
     if not good:
         evals = [
-            ("entry_path", "show_path (bfs_path 100000 fns (map (fun e => (e, [])) (entries fns)) [] (forbidden fns))"),
+            ("entry_path", "show_path (bfs_path (graph_fuel fns) fns (map (fun e => (e, [])) (entries fns)) [] (forbidden fns))"),
             ("bad_methods", "map (fun f => (cg_owner f ++ \"::\" ++ cg_name f, \"takes neither &mut self nor self but reaches do_collection\")) "
                             "(filter (fun f => negb (arena_method_ok fns f)) fns)"),
             ("edge_rule", "map (fun f => (cg_owner f ++ \"::\" ++ cg_name f, \"edges do not cover the name-based rule\")) "
@@ -546,7 +557,7 @@ def _statics_obligations(chk):
     ok, _ = prepare(chk, "C20 statics")
     if not ok:
         return False
-    res = build_and_audit(chk, "Props/Static.v", ["C20_no_shared_state"])
+    res = build_and_audit(chk, "Props/C20Static.v", ["C20_no_shared_state"])
     good = all(res.values())
     chk.trusted.append("translator-api: list of static items / thread_local! uses / field types (fails closed on unknown item macros)")
     if not good:
